@@ -73,6 +73,13 @@ class OutputSuppressionContext:
             sys.stderr = sys.__stderr__
 
     def __enter__(self) -> None:
+        if self._null_file.closed:
+            # A previously executed test case closed our shared sink, e.g. via
+            # ``sys.stdout.close()``.  Re-open it, otherwise every later ``print``
+            # of the SUT raises ``ValueError: I/O operation on closed file``.
+            OutputSuppressionContext._null_file = open(  # noqa: PLW1514, PTH123, SIM115
+                os.devnull, mode="w"
+            )
         # Save OS-level fds before the SUT has a chance to close them.
         for fd in (0, 1, 2):
             with contextlib.suppress(OSError):
